@@ -2,16 +2,19 @@ package main
 
 import (
 	"bytes"
+	"context"
 	"crypto/ed25519"
 	"encoding/base64"
 	"encoding/hex"
 	"encoding/json"
 	"fmt"
+	"io"
+	"log"
 	"os"
 	"os/exec"
 	"path/filepath"
-
-	"golang.org/x/crypto/ssh"
+	"syscall"
+	"time"
 
 	"github.com/edutko/decipher/internal/file"
 )
@@ -33,28 +36,6 @@ func toVInfo(i file.Info) vInfo {
 		v.C = append(v.C, toVInfo(c))
 	}
 	return v
-}
-
-var evilPieces = []string{
-	"\n", "\r", "\x1b[31m", "\x00", "\x07", "\x08", "\t", "\x7f", "\x1f", "\u0085", "\u009b", "\u0080", "\u009f",
-	"\x9b", "\x80", "\xff", "\xc2", "\xe2\x82", "\\", "\\n", " ", "  ", "é", "€", "\U0001F600", "�", " ",
-	"\n  Forged: yes", "\r\n", "a", "%[1]c", "%s", "%d", "%!s(MISSING)", "%%", "%[2]*[1]d", "%c", "%10s", "%x", "Key ID", ": ", "x", "Ā", "\xc2\x80", "\xed\xa0\x80", "\xf4\x90\x80\x80", "\xc0\x80",
-}
-
-func evilString(r *Rng) string {
-	n := r.Intn(4)
-	var sb bytes.Buffer
-	for i := 0; i <= n; i++ {
-		switch r.Intn(3) {
-		case 0:
-			sb.WriteString(evilPieces[r.Intn(len(evilPieces))])
-		case 1:
-			sb.WriteString([]string{"abc", "Subject", "CN=x", "0123", "user@example.org"}[r.Intn(5)])
-		default:
-			sb.WriteByte(byte(r.U64()))
-		}
-	}
-	return sb.String()
 }
 
 func randTree(r *Rng, depth int) file.Info {
@@ -130,9 +111,74 @@ func jwtWith(claims map[string]any, hdr map[string]any) []byte {
 	return []byte(e.EncodeToString(h) + "." + e.EncodeToString(p) + "." + e.EncodeToString([]byte("sig")))
 }
 
+
+// c20Inspect: what the library returns for the file at path when it is opened under the name
+// asName ("" = the path itself; "/dev/stdin" = the way the command sees its standard input).
+func c20Inspect(path, asName string) (info file.Info, ok bool) {
+	defer func() {
+		if r := recover(); r != nil {
+			ok = false
+		}
+	}()
+	var f *os.File
+	if asName == "" {
+		var err error
+		if f, err = os.Open(path); err != nil {
+			return file.Info{}, false
+		}
+	} else {
+		fd, err := syscall.Open(path, syscall.O_RDONLY, 0)
+		if err != nil {
+			return file.Info{}, false
+		}
+		f = os.NewFile(uintptr(fd), asName)
+	}
+	defer f.Close()
+	info, _ = file.Inspect(f)
+	return info, true
+}
+
+// c20CLI runs the untagged command with the given arguments (standard input from stdinPath when
+// not empty) and returns the exact octets of standard output and the exit status.
+func c20CLI(c *Ctx, stdinPath string, args ...string) ([]byte, int) {
+	ctx, cancel := context.WithTimeout(context.Background(), 60*time.Second)
+	defer cancel()
+	cmd := exec.CommandContext(ctx, c.Bin, args...)
+	if stdinPath != "" {
+		in, err := os.Open(stdinPath)
+		if err != nil {
+			return nil, -1
+		}
+		defer in.Close()
+		cmd.Stdin = in
+	}
+	var so bytes.Buffer
+	cmd.Stdout = &so
+	err := cmd.Run()
+	code := 0
+	if err != nil {
+		if ee, ok := err.(*exec.ExitError); ok {
+			code = ee.ExitCode()
+		} else {
+			code = -1
+		}
+	}
+	return so.Bytes(), code
+}
+
+// c20EveryPosition: s as description, attribute name and attribute value at depths 0, 1 and 2.
+func c20EveryPosition(s string) file.Info {
+	at := []file.Attribute{{Name: s, Value: s}, {Name: "Comment", Value: s}}
+	return file.Info{Description: s, Attributes: at, Children: []file.Info{
+		{Description: s, Attributes: at, Children: []file.Info{{Description: s, Attributes: at}, {Description: "leaf"}}},
+		{Description: "", Attributes: []file.Attribute{{Name: "", Value: s}}}}}
+}
+
 func genC20(c *Ctx) {
+	log.SetOutput(io.Discard) // the library logs every parser that turns the data down
+	defer log.SetOutput(os.Stderr)
 	// 1. arbitrary report trees through printInfo
-	n := 400
+	n := 1100
 	if c.Thorough() {
 		n = 20000
 	}
@@ -146,6 +192,10 @@ func genC20(c *Ctx) {
 		// content must never be used as a format string: at depth 5 the indentation is 10 = LF
 		file.Info{Description: "%[1]c", Children: []file.Info{{Description: "%[1]cX: y", Attributes: []file.Attribute{{Name: "%[1]c%s", Value: "%d%[1]c"}},
 			Children: []file.Info{{Description: "%c", Children: []file.Info{{Description: "%[1]c", Children: []file.Info{{Description: "%[1]c", Children: []file.Info{{Description: "%[1]cForged: yes"}}}}}}}}}}},
+		// attribute values that are JSON text are content like any other (seeded change: "valid JSON is printed as it is")
+		file.Info{Description: "JSON Web Token (JWT)", Attributes: []file.Attribute{{Name: "Audience", Value: "[\"a\x7f\u009b\"]"}, {Name: "Comment", Value: "[\n\"x\"]"}}},
+		file.Info{Description: "{\"a\":\n1}", Attributes: []file.Attribute{{Name: "[\n1]", Value: "{\"k\"\r:\"\x9b\"}"}}},
+		file.Info{}, // an empty report is exactly one (empty) line
 	)
 	// every C0, DEL and C1 at start, middle and end
 	for b := 0; b < 0xa0; b++ {
@@ -165,6 +215,13 @@ func genC20(c *Ctx) {
 			raw := string([]byte{byte(b)})
 			trees = append(trees, file.Info{Description: raw + "a" + raw})
 		}
+		// inside JSON text: in a string, between tokens, before and after the value
+		trees = append(trees, file.Info{Description: "[\"" + ch + "\"]", Attributes: []file.Attribute{
+			{Name: "{\"k" + ch + "\":1}", Value: "[\"a" + ch + "b\"]"}, {Name: "a", Value: "[" + ch + "1," + ch + "2]"}, {Name: "b", Value: "{\"k\":" + ch + "\"v\"}" + ch}, {Name: "c", Value: ch + "[]"}}})
+	}
+	// every shaped string in every position
+	for _, s := range c20ShapedFixed {
+		trees = append(trees, c20EveryPosition(s))
 	}
 	for len(trees) < n {
 		trees = append(trees, randTree(c.R, 1+c.R.Intn(3)))
@@ -183,31 +240,90 @@ func genC20(c *Ctx) {
 			c.Emit("tree", InfoSx(trees[off+k]), SB(o))
 		}
 	}
-	// 2. end to end: files whose displayed strings are attacker-controlled
-	ne := 120
+	// 2. end to end through the real command: files of every format whose attacker-controlled
+	// strings are hostile, as a file argument, on standard input and in a recursive scan
+	rounds := 30
 	if c.Thorough() {
-		ne = 3000
+		rounds = 150
 	}
 	pub, _, _ := ed25519.GenerateKey(c.R)
-	sp, _ := ssh.NewPublicKey(pub)
-	line := bytes.TrimSpace(ssh.MarshalAuthorizedKey(sp))
-	for k := 0; k < ne; k++ {
-		var data []byte
-		var kind string
-		switch k % 2 {
-		case 0:
-			kind = "e2e:jwt"
-			// one registered field per map: attribute order must not depend on Go's map iteration here (that is C04's subject)
-			data = jwtWith(map[string]any{"sub": evilString(c.R)}, map[string]any{"kid": evilString(c.R)})
-		default:
-			kind = "e2e:sshpub"
-			cm := bytes.ReplaceAll([]byte(evilString(c.R)), []byte("\n"), []byte(" "))
-			cm = bytes.ReplaceAll(cm, []byte("\r"), []byte("\x1b"))
-			data = append(append(append([]byte{}, line...), ' '), cm...)
+	g := &c20Gen{r: c.R, pub: pub}
+	root := filepath.Join(c.Tmp, "c20")
+	for round := -1; round < rounds; round++ {
+		var files []c20File
+		if round < 0 {
+			files = c20Corpus(g)
+		} else {
+			files = g.round()
 		}
-		info, p := inspectBytes(c, fmt.Sprintf("c20-%d", k), data)
-		out, code := runCLI(c, p)
-		c.Emit(kind, SL{S(p), InfoSx(info)}, SL{SB(out), I(code)})
-		os.Remove(p)
+		dir := filepath.Join(root, fmt.Sprintf("r%03d", round+1))
+		os.MkdirAll(dir, 0o755)
+		scan := SL{}
+		var paths []string
+		for k, f := range files {
+			p := filepath.Join(dir, fmt.Sprintf("%03d-%s", k, f.name))
+			if f.name == "authorized_keys" || f.name == "known_hosts" {
+				d := filepath.Join(dir, fmt.Sprintf("%03d-d", k))
+				os.MkdirAll(d, 0o755)
+				p = filepath.Join(d, f.name)
+			}
+			if err := os.WriteFile(p, f.data, 0o644); err != nil {
+				fmt.Fprintln(os.Stderr, "write:", err)
+				os.Exit(1)
+			}
+			info, ok := c20Inspect(p, "")
+			if !ok {
+				fmt.Fprintf(os.Stderr, "C20: the library panicked on a generated %s file (not a case of this property)\n", f.tag)
+				os.Remove(p)
+				continue
+			}
+			out, code := c20CLI(c, "", p)
+			c.Emit("e2e:"+f.tag, SL{S(p), InfoSx(info)}, SL{SB(out), I(code)})
+			scan = append(scan, SL{S(p), InfoSx(info)})
+			paths = append(paths, p)
+			if round < 0 || (k+round)%3 == 0 {
+				if sinfo, ok := c20Inspect(p, "/dev/stdin"); ok {
+					var out []byte
+					if k%2 == 0 {
+						out, code = c20CLI(c, p)
+					} else {
+						out, code = c20CLI(c, p, "-")
+					}
+					c.Emit("stdin:"+f.tag, SL{InfoSx(sinfo)}, SL{SB(out), I(code)})
+				}
+			}
+		}
+		out, code := c20CLI(c, "", "-r", dir)
+		c.Emit("scan:recursive", scan, SL{SB(out), I(code)})
+		if len(paths) >= 3 { // several file arguments
+			k := c.R.Intn(len(paths) - 2)
+			out, code = c20CLI(c, "", paths[k:k+3]...)
+			c.Emit("scan:arguments", scan[k:k+3], SL{SB(out), I(code)})
+		}
+		os.RemoveAll(dir)
+	}
+}
+
+// c20Corpus: witnesses of the changes this check once missed.
+func c20Corpus(g *c20Gen) []c20File {
+	e := base64.RawURLEncoding
+	jwt := func(h, p string) []byte {
+		return []byte(e.EncodeToString([]byte(h)) + "." + e.EncodeToString([]byte(p)) + "." + e.EncodeToString([]byte("sig")))
+	}
+	algo := "ssh-rsa\x1b[2J\nid_rsa.pem: PKCS#8 private key\x7f\u009b"
+	blob := base64.StdEncoding.EncodeToString(c20Cat(c20SSHStr([]byte(algo)), c20U32(3), []byte{1, 0, 1}))
+	ppk := "PuTTY-User-Key-File-3: ssh-rsa\nEncryption: none\nComment: demo\nPublic-Lines: 1\n" + blob + "\nPrivate-Lines: 1\nAAAA\n" +
+		"Private-MAC: 0000000000000000000000000000000000000000000000000000000000000000\n"
+	return []c20File{
+		// array- and object-valued JWT fields (RFC 7519 4.1.3: "aud" may be an array) with DEL and C1 inside
+		{"corpus-jwt-array-claims", "t.jwt", jwt(`{"alg":"none","jwk":{"kty":"oct","k":"`+"\x7f\u009b"+`"},"x5c":["`+"\u0085"+`"]}`, `{"aud":["a`+"\x7f"+`","b`+"\u009b"+`"],"sub":"s"}`)},
+		{"corpus-jwt-json-looking-strings", "t.jwt", jwt(`{"alg":"[\n1]","kid":"[\"\u007f\"]"}`, `{"aud":"[\"a\u007f\u009b\"]","sub":"{\"k\":\n1}","iss":"[\r\n]"}`)},
+		// a comment that is JSON text
+		{"corpus-sshpub-json-comment", "id.pub", []byte(g.sshLine("ssh-ed25519", "ssh-ed25519", "[\"x\x7f\",\t\"\u009b\"]") + "\n")},
+		// library errors quote the content: unknown key algorithm / unsupported key type
+		{"corpus-known_hosts-unknown-algorithm", "known_hosts", []byte("example.org ssh-rsa " + blob + "\n")},
+		{"corpus-authorized_keys-unknown-algorithm", "authorized_keys", []byte("ssh-rsa " + blob + " c\n")},
+		{"corpus-ppk-bad-key-type", "key.ppk", []byte(ppk)},
+		{"corpus-sshpub-unknown-algorithm", "id.pub", []byte("ssh-rsa " + blob + " c\n")},
 	}
 }
